@@ -561,7 +561,7 @@ func init() {
 		Init: c03Init,
 		Cases: func(tier string) int {
 			if tier == "thorough" {
-				return 300000
+				return 1500000
 			}
 			return 60000
 		},
